@@ -18,7 +18,8 @@ Min(a, b) == IF a <= b THEN a ELSE b
 RECURSIVE Gcd(_, _)
 Gcd(a, b) == IF b = 0 THEN a ELSE Gcd(b, a % b)
 
-IsPow2(n) == n \in {1, 2, 4, 8, 16, 32, 64, 128, 256, 512, 1024, 2048, 4096}
+RECURSIVE IsPow2(_)
+IsPow2(n) == n >= 1 /\ (n = 1 \/ (n % 2 = 0 /\ IsPow2(n \div 2)))
 
 RoundUp(n, a) == ((n + a - 1) \div a) * a
 
